@@ -10,10 +10,12 @@ def sh(cmd, cwd=None, timeout=1800):
     p = subprocess.run(cmd, shell=True, cwd=cwd, stdout=subprocess.PIPE, stderr=subprocess.STDOUT, text=True, timeout=timeout)
     return p.returncode, p.stdout
 
+V = os.path.dirname(os.path.dirname(os.path.abspath(__file__)))  # the verification tree this script belongs to
+
 def main():
     prop, src, name = sys.argv[1:4]
     extra = sys.argv[4:]
-    dst = "/verif/seeded/%s-%s" % (prop, name)
+    dst = "%s/seeded/%s-%s" % (V, prop, name)
     os.makedirs(dst, exist_ok=True)
     for f in ([] if os.path.realpath(src) == os.path.realpath(dst) else os.listdir(src)):
         s = os.path.join(src, f)
@@ -36,14 +38,17 @@ def main():
         fcntl.flock(lk, fcntl.LOCK_EX)
         try:
             rc, out = sh("git -C /repo apply %s" % patch); assert rc == 0, out
-            rc, out = sh("/verif/baseline.sh")
-            meta["suite_passes_with_change_confirmed"] = (rc == 0)
+            if os.environ.get("SEED_SKIP_SUITE") and meta.get("suite_passes_with_change_confirmed"):
+                pass  # regression over recorded seeds: the suite was run with this change when it was recorded
+            else:
+                rc, out = sh(V + "/baseline.sh")
+                meta["suite_passes_with_change_confirmed"] = (rc == 0)
             results = {}
             for f in os.listdir(dst):  # replays of an earlier evaluation
                 if f.startswith("replay_"): os.remove(os.path.join(dst, f))
             for p in [prop] + extra:
                 t0 = time.time()
-                rc, out = sh("cd /verif && ./check %s" % p, timeout=3000)
+                rc, out = sh("cd %s && ./check %s" % (V, p), timeout=3000)
                 lines = [l for l in out.splitlines() if l.startswith("VIOLATION") or l.startswith("OK ") or l.startswith("KNOWN-FINDING")]
                 results[p] = {"exit": rc, "lines": lines[:12], "wall_s": round(time.time() - t0, 1)}
                 # keep the replay(s) next to the seeded change
